@@ -45,6 +45,7 @@ def run(ctx):
     _shared_r4(ctx)
     _shared_r5(ctx)
     _round6(ctx)
+    _round7(ctx)
 
 
 def _run_main(ctx):
@@ -274,3 +275,11 @@ def _round6(ctx):
     from rules import arms as A
     with ctx.rule('R05.12', 'a close or EOF behind any burst is seen: one readable wake-up hands over every complete frame and reads until the transport would block (shared with C06)', floor=7) as r:
         A.include(ctx, r, 'c06', 'R06.2')
+
+
+def _round7(ctx):
+    """Found by seeding round 7 (minimal one-line mutations)."""
+    from rules import arms as A
+    with ctx.rule('R05.13', "the root cause survives the shutdown: a stale channel wake-up is not an error, and frames behind the client's own exception are discarded, not fatal (shared with C20, C07)", floor=10) as r:
+        A.include(ctx, r, 'c20', 'R20.2', pick=(':stale',))
+        A.include(ctx, r, 'c07', 'R07.3')
